@@ -3,8 +3,9 @@ import SymbolVerif.Model.Bytes
 namespace Driver
 open SymbolVerif
 
-/-- a handler takes the argument tokens of one request line and returns the answer line. -/
-abbrev Handler := List String → Option String
+/-- a handler takes the operation name and the argument tokens of one request line and returns the
+    answer line; `none` is reported as `bad-request` (never a default value). -/
+abbrev Handler := String → List String → Option String
 
 def hexArg (s : String) : Option Bytes := if s = "-" then some [] else Bytes.ofHex s
 def hexOut (b : Bytes) : String := if b.isEmpty then "-" else Bytes.toHex b
@@ -14,6 +15,8 @@ def strArg (s : String) : Option String := do
   let b ← hexArg s
   String.fromUTF8? (ByteArray.mk b.toArray)
 
+def strOut (s : String) : String := hexOut s.toUTF8.toList
+
 def natArg (s : String) : Option Nat := s.toNat?
 def intArg (s : String) : Option Int := s.toInt?
 
@@ -22,5 +25,26 @@ def optOut (f : α → String) : Option α → String
   | none => "none"
 
 def natsOut (l : List Nat) : String := if l.isEmpty then "-" else ",".intercalate (l.map toString)
+
+/-- `a,b,c` (or `-` for the empty list) -/
+def listArg (f : String → Option α) (s : String) : Option (List α) :=
+  if s = "-" then some [] else (s.splitOn ",").mapM f
+
+def dispatch (h : Handler) (line : String) : String :=
+  match (line.trimAscii.toString.splitOn " ").filter (· ≠ "") with
+  | [] => "bad-request"
+  | cmd :: args =>
+    if cmd = "ping" then "pong" else (h cmd args).getD "bad-request"
+
+partial def loop (h : Handler) (hin hout : IO.FS.Stream) : IO Unit := do
+  let line ← hin.getLine
+  if line.isEmpty then return ()
+  hout.putStrLn (dispatch h line)
+  hout.flush
+  loop h hin hout
+
+/-- one request per line `<op> arg…`, one answer line per request. -/
+def run (h : Handler) : IO Unit := do
+  loop h (← IO.getStdin) (← IO.getStdout)
 
 end Driver
